@@ -11,6 +11,7 @@ import (
 	"encoding/json"
 	"fmt"
 	"strconv"
+	"strings"
 	"time"
 
 	"verif/engine"
@@ -66,6 +67,17 @@ func Oracle(tr *udpx.Trace) (string, []*engine.Finding) {
 				}
 				a = nil
 				live[op.C] = nil
+			}
+			if len(st.TargetRecv) == 0 && (len(st.NewSocks) == 1 || (a != nil && st.AliveBefore)) && strings.HasPrefix(op.Mod, "raw:") {
+				// an authenticated, allowed datagram whose write to the target failed: it opened or used
+				// the association (it is client traffic) but nothing is promised for it
+				if a == nil {
+					a = &assoc{port: portOf(st.NewSocks[0]), createdAt: i, id: len(all)}
+					live[op.C] = a
+					all = append(all, a)
+				}
+				a.sends++
+				a.firstDNS = false
 			}
 			if len(st.TargetRecv) == 1 {
 				dns := isDNSTarget(st.TargetRecv[0].Who)
@@ -154,6 +166,41 @@ func Oracle(tr *udpx.Trace) (string, []*engine.Finding) {
 			add("removal-report-count", "association #%d: removal reported %d times, want exactly once", id, removes[id])
 		}
 	}
+	// reclamation whatever the server did with its deadlines: an association whose client has been
+	// silent for longer than max(timeout, 17 s) is gone at the next quiescent point
+	idle := T
+	if idle < 17*time.Second {
+		idle = 17 * time.Second
+	}
+	lastTraffic := map[string]time.Duration{} // server socket port -> last client datagram on it
+	clientPort := map[int]string{}
+	reported := map[string]bool{}
+	for _, st := range tr.Steps {
+		if st.Skipped {
+			continue
+		}
+		if st.Op.K == "S" {
+			if len(st.NewSocks) == 1 {
+				clientPort[st.Op.C] = portOf(st.NewSocks[0])
+			}
+			if p, ok := clientPort[st.Op.C]; ok {
+				if _, closed := closedPorts[p]; !closed || closedPorts[p] >= st.At {
+					lastTraffic[p] = st.At
+				}
+			}
+		}
+		end := st.At
+		if st.Op.K == "A" {
+			end += st.Op.D
+		}
+		for p, last := range lastTraffic {
+			closedAt, closed := closedPorts[p]
+			if end > last+idle && (!closed || closedAt > end) && !reported[p] {
+				reported[p] = true
+				add("idle-association-not-reclaimed", "server socket port %s: the client has been silent since %v, it is now %v (timeout %v) and the association still holds its socket", p, last, end, T)
+			}
+		}
+	}
 	// per-step reclamation check using the server's own deadlines
 	dl := map[string]time.Duration{} // socket -> current deadline
 	for _, st := range tr.Steps {
@@ -237,9 +284,12 @@ func menu(T time.Duration) []udpx.Op {
 		{K: "S", C: 0, Key: 0, T: 0, N: 30},  // DNS query
 		{K: "S", C: 0, Key: 0, T: 1, N: 30},  // non-DNS
 		{K: "S", C: 1, Key: 1, T: 3, N: 12},  // second client, DNS
+		{K: "S", C: 1, Key: 1, N: 9, Mod: "raw:93.184.216.34:0"}, // the write to the target fails (port 0)
 		{K: "R", C: 0, T: 0, N: 50},          // reply from port 53
 		{K: "R", C: 0, T: 1, N: 50},          // reply from port 80
 		{K: "R", C: 1, T: 3, N: 50},
+		{K: "S", C: 0, Key: 0, T: 6, N: 21}, // port 8053: not DNS
+		{K: "R", C: 0, T: 6, N: 22},
 		{K: "A", D: time.Second},
 		{K: "A", D: 16 * time.Second},
 		{K: "A", D: 17*time.Second + time.Millisecond},
@@ -301,7 +351,7 @@ func init() {
 				ctx.RunCase("nat-life", "Q", scenario(in), in, nil)
 			}
 		}
-		ctx.Res.Note("nat-life: all 12^%d sequences for NAT timeouts 300 s and 10 s", depth)
+		ctx.Res.Note("nat-life: all 15^%d sequences for NAT timeouts 300 s and 10 s", depth)
 	})
 	hk.Replayers["C14"] = func(ctx *engine.Ctx, rp engine.Replay) []*engine.Finding {
 		var in input
